@@ -13,7 +13,7 @@ PROPERTY = 'C14'
 
 META = {
     'bounds': {'quick': 'dim<=2, <=2 user objectives, 3 consecutive batches of <=2 designs (worst case), 2 batches (gradient)',
-               'thorough': 'dim<=3, batches (2,2,2) and (1,2,1,1); gradient 3 batches'},
+               'thorough': 'dim<=4, batches (2,2,2) and (1,2,1,1), <=2 transient failures; gradient dim<=4, 3 batches'},
     'stubs': ['Problem.evaluate -> uninterpreted function (Ackermann form) + call log',
               'np.zeros inside artap.operators -> object array (so that the gradient array can hold solver terms)'],
     'assumptions': ['floats as reals: x+tol, x+1e-4 and the quotient are exact; in doubles the forward difference carries rounding error',
@@ -161,6 +161,11 @@ def configs(tier):
         wc(3, 1, (2, 2, 2))
         wc(2, 2, (1, 2, 1, 1))
         wc(3, 2, (1, 1, 1))
+        wc(2, 1, (2, 2), faults=2)
+        wc(3, 2, (2, 2, 2))
+        wc(4, 1, (2, 1, 2))
+        gr(3, 2, (2, 2, 2))
+        gr(4, 1, (2, 2))
         gr(3, 1, (2, 2, 1))
         gr(2, 2, (2, 2, 2))
     return out
